@@ -181,26 +181,35 @@ def _as_array_or_scalar(exprs: Sequence[ScalarExpression],
     return tuple(result)
 
 
-def _is_idx_lambda_broadcast_op(expr: IndexLambda) -> bool:
-    if (isinstance(expr.expr, p.Subscript)
-            and isinstance(expr.expr.aggregate, p.Variable)):
-        input_name = expr.expr.aggregate.name
-    elif isinstance(expr.expr, p.Variable):
-        input_name = expr.expr.name
+def _is_idx_lambda_broadcast_op(expr: IndexLambda,
+                                inner_expr: ScalarExpression) -> bool:
+    if (isinstance(inner_expr, p.Subscript)
+            and isinstance(inner_expr.aggregate, p.Variable)):
+        input_name = inner_expr.aggregate.name
+    elif isinstance(inner_expr, p.Variable):
+        input_name = inner_expr.name
     else:
         return False
 
     from_shape = expr.bindings[input_name].shape
     to_shape = expr.shape
 
+    if len(from_shape) > len(to_shape):
+        return False
+
     for in_dim, brdcst_dim in zip(from_shape,
-                                  to_shape[-len(from_shape):],
+                                  to_shape[len(to_shape)-len(from_shape):],
                                   strict=True):
         if (not are_shape_components_equal(in_dim, brdcst_dim)
                 and not are_shape_components_equal(in_dim, 1)):
             return False
 
-    return True
+    if isinstance(inner_expr, p.Subscript):
+        # only the exact broadcasting subscript is a broadcast
+        return (inner_expr.index_tuple  # type: ignore[no-any-return]
+                == get_indexing_expression(from_shape, to_shape))
+    else:
+        return from_shape == ()
 
 
 def _is_normal_reduce_expr(expr: IndexLambda) -> bool:
@@ -371,7 +380,7 @@ def index_lambda_to_high_level_op(expr: IndexLambda) -> HighLevelOp:
                                   if idx.name in inner_expr.bounds})
                         )
 
-    if _is_idx_lambda_broadcast_op(expr):
+    if _is_idx_lambda_broadcast_op(expr, inner_expr):
         if isinstance(inner_expr, p.Subscript):
             return BroadcastOp(expr.bindings[inner_expr.aggregate.name])
         else:
